@@ -20,14 +20,26 @@ two-row batches.  The per-tree ground truth is taken with the SAME object (sciki
 float32 themselves), and the returned mean / stds must match the exact model within the same float64 tolerance
 whatever the query's dtype or layout: the accumulation happens in float64 (tree.predict and tree_.impurity are
 float64), never in the dtype of the query.
+
+Environment side (the property quantifies over every call, wherever the caller makes it): every step runs its predict calls
+inside its own joblib context - none, `parallel_config` / `parallel_backend` with the threading / loky / multiprocessing /
+sequential backend, with or without an `n_jobs` of the context - with the forest's `n_jobs` in {None, 1, 2, 3, 4}.  joblib's
+backend resolution is inside the Lean model (`resolve`, `C18_env`: with `require="sharedmem"` the tasks always run where the
+caller's arrays are, so the environment cannot matter) and is compared with where the accumulate calls were seen to run.
+
+Kept arrays: every array a predict call returned is kept together with a snapshot of its content at return time; after every later
+call (same forest, a second forest, the acquisition functions) the kept arrays must still hold what was returned
+(`returned-arrays-stable`) - a caller who compares the predictions of two queries or two forests keeps them.
 """
+import contextlib
 import math
+import os
 import pickle
 import threading
 
 import numpy as np
 
-from .common import HarnessError, VERIF, rat, unrat
+from .common import HarnessError, REPO, VERIF, rat, unrat
 
 EPS = 2.0 ** -52
 
@@ -60,7 +72,7 @@ def _gen_case(rng, thorough):
         if kw["bootstrap"] and rng.random() < 0.4:
             kw["max_samples"] = rng.choice([0.8, 0.5])
     case = {"cls": cls, "n": n, "d": d, "kind": kind, "kw": kw, "seed": rng.randrange(1 << 30),
-            "nq": rng.choice([3, 6, 10]), "n_jobs0": rng.choice([1, 1, 1, 4, 3, 2])}
+            "nq": rng.choice([3, 6, 10]), "n_jobs0": rng.choice([1, 1, 1, 4, 3, 2, None])}
     if exp is not None:
         # min_variance floors on the scale of the targets' variance (an aleatoric floor of 1e-3 would swamp a tiny-scale forest and
         # make every statement about its epistemic part vacuous in doubles); several disagreeing trees
@@ -71,8 +83,90 @@ def _gen_case(rng, thorough):
         if kw["n_estimators"] < 3 and rng.random() < 0.8:
             kw["n_estimators"] = rng.choice([5, 7, 10, 20])
     case["query"] = _gen_query(rng, 0.45)
+    case["env"] = _gen_env(rng, 0.6)
     case["history"] = _gen_history(rng, case)
     return case
+
+
+# The ENVIRONMENT of a predict call: the joblib context that is active around it in the caller's code
+# (`with joblib.parallel_config(backend=..., n_jobs=...)` / the older `joblib.parallel_backend(...)`).  The forest passes
+# its own `n_jobs` and call-level hints to `joblib.Parallel`; which backend runs the per-tree tasks and with how many workers is
+# decided by joblib from BOTH (Model/Forest.lean `resolve`).  `prefer=` of the context is not part of the dimension: with
+# `parallel_config(prefer="processes")` joblib itself rejects every `require="sharedmem"` call (scikit-learn's own forests
+# included) as "inconsistent settings" - a configuration conflict of the caller, not a prediction.
+ENV_BACKENDS = [None, "threading", "loky", "loky", "multiprocessing", "multiprocessing", "sequential"]
+PROCESS_BACKENDS = ("loky", "multiprocessing")
+
+
+def _gen_env(rng, p_default):
+    """None = no joblib context around the call"""
+    if rng.random() < p_default:
+        return None
+    env = {"backend": rng.choice(ENV_BACKENDS), "n_jobs": rng.choice([None, None, 2, 4])}
+    if env["backend"] is None and env["n_jobs"] is None:
+        env["n_jobs"] = 4
+    if env["backend"] is not None and rng.random() < 0.3:
+        # the legacy API: its n_jobs defaults to -1 (all CPUs) when not given; given explicitly for the process backends
+        # (one worker process per CPU is nothing a changed tree should be made to pay for on a loaded machine)
+        env["api"] = "parallel_backend"
+        if env["backend"] in PROCESS_BACKENDS and env["n_jobs"] is None:
+            env["n_jobs"] = rng.choice([2, 4])
+    return {k: v for k, v in env.items() if v is not None}
+
+
+def _ctx_jobs(env):
+    """the n_jobs the joblib context carries: unset = None, except the legacy `parallel_backend`, whose n_jobs defaults to -1"""
+    env = env or {}
+    if env.get("n_jobs") is not None:
+        return int(env["n_jobs"])
+    return -1 if env.get("api") == "parallel_backend" else None
+
+
+def _cpus():
+    import joblib
+
+    return int(joblib.cpu_count())
+
+
+def _ambient(env):
+    """the context manager of environment spec `env`"""
+    if not env:
+        return contextlib.nullcontext()
+    import joblib
+
+    _workers_see_the_tree_under_test()
+    kw = {"n_jobs": env["n_jobs"]} if env.get("n_jobs") is not None else {}
+    if env.get("api") not in (None, "parallel_config", "parallel_backend"):
+        raise HarnessError(f"unknown joblib context api {env}")
+    try:  # building the context is the harness's business: a failure here is never attributed to the code under test
+        if env.get("api") == "parallel_backend":
+            return joblib.parallel_backend(env["backend"], **kw)
+        if env.get("backend") is not None:
+            kw["backend"] = env["backend"]
+        return joblib.parallel_config(**kw)
+    except Exception as e:  # noqa: BLE001
+        raise HarnessError(f"cannot build the joblib context {env}: {type(e).__name__}: {e}")
+
+
+def _workers_see_the_tree_under_test():
+    """worker PROCESSES of a joblib backend (started only if the code under test lets a process backend run its tasks; the
+    unchanged tree never does: require="sharedmem") must import deephyper from the tree under test, like this process"""
+    src = str(REPO / "src")
+    pp = os.environ.get("PYTHONPATH", "")
+    if pp.split(os.pathsep)[0] != src:
+        os.environ["PYTHONPATH"] = src + (os.pathsep + pp if pp else "")
+
+
+def _esig(env):
+    return "default" if not env else ",".join(f"{k}={env[k]}" for k in sorted(env))
+
+
+def _requested_jobs(n_jobs, env):
+    """the degree of parallelism the caller asked for: the forest's n_jobs, else the context's, else 1"""
+    n = n_jobs if isinstance(n_jobs, int) and not isinstance(n_jobs, bool) else _ctx_jobs(env)
+    if n is None:
+        return 1
+    return max(_cpus() + 1 + n, 1) if n < 0 else n
 
 
 QDTYPES = ["f32", "f32", "f32", "f32", "f16", "f16", "i64", "i32", "i8", "u8", "bool", "f64", "f64", "f128", "obj"]
@@ -93,6 +187,8 @@ def _gen_query(rng, p_default):
         q["rows"] = "two"
     elif r < 0.4:
         q["rows"] = "tail"
+    if rng.random() < 0.25:
+        q["shift"] = True   # another batch of the same length: other content at every position
     return q
 
 
@@ -105,6 +201,8 @@ def _make_query(Q, q):
     if not q:
         return Q
     A = Q
+    if q.get("shift"):
+        A = np.roll(A, 1, axis=0) + 0.3
     rows = q.get("rows", "all")
     if rows == "one":
         A = A[len(A) // 2: len(A) // 2 + 1]
@@ -170,38 +268,49 @@ def _gen_history(rng, case):
 
     hist = [{"op": "fit", "forms": forms()}]
     nj = case["n_jobs0"]
-    style = rng.choice(["njobs", "njobs", "minvar", "minvar", "mixed", "mixed", "lifecycle"])
+    style = rng.choice(["njobs", "njobs", "minvar", "minvar", "mixed", "mixed", "lifecycle", "kept"])
     k = rng.choice([1, 2, 2, 3]) if style != "njobs" else 1
     for _ in range(k):
         if style == "njobs":
-            op = {"op": "set_params", "n_jobs": 4 if nj == 1 else rng.choice([1, 4])}
+            op = {"op": "set_params", "n_jobs": 4 if nj in (1, None) else rng.choice([1, 4, None])}
         elif style == "minvar":
             mv = rng.choice([v for v in case.get("minvars", MINVARS) if v != case["kw"]["min_variance"]] or [0.0])
             op = {"op": rng.choice(["set_params", "setattr"]), "min_variance": mv}
         elif style == "lifecycle":
-            op = {"op": rng.choice(["clone_refit", "pickle", "predict"])}
-            if op["op"] == "predict":
+            op = {"op": rng.choice(["clone_refit", "pickle", "predict", "other"])}
+            if op["op"] in ("predict", "other"):
                 op["form"] = rng.choice(FORMS)
+        elif style == "kept":
+            # the caller keeps what an earlier query returned while the same / another forest answers further queries
+            op = {"op": rng.choice(["other", "other", "predict"]), "form": rng.choice(["std", "dis", "std", "dis", "plain"])}
         else:
             r = rng.random()
             if r < 0.35:
-                op = {"op": "set_params", "min_variance": rng.choice(case.get("minvars", MINVARS)), "n_jobs": rng.choice([1, 2, 3, 4, 4])}
+                op = {"op": "set_params", "min_variance": rng.choice(case.get("minvars", MINVARS)), "n_jobs": rng.choice([1, 2, 3, 4, 4, None])}
             elif r < 0.5:
                 op = {"op": "setattr", "min_variance": rng.choice(case.get("minvars", MINVARS))}
-            elif r < 0.65:
+            elif r < 0.6:
                 op = {"op": "predict", "form": rng.choice(FORMS)}
-            elif r < 0.8:
+            elif r < 0.7:
+                op = {"op": "other", "form": rng.choice(FORMS)}
+            elif r < 0.85:
                 op = {"op": "clone_refit"}
             else:
                 op = {"op": "pickle"}
         if "n_jobs" in op:
             nj = op["n_jobs"]
         op["forms"] = forms()
-        if rng.random() < 0.35:  # this step predicts on its own query object (other dtype / layout / batch length)
+        if rng.random() < (0.7 if style == "kept" else 0.35):  # this step predicts on its own query object (other dtype / layout / batch length / content)
             op["q"] = _gen_query(rng, 0.2)
+        if rng.random() < 0.3:  # ... inside its own joblib context
+            op["env"] = _gen_env(rng, 0.15)
         hist.append(op)
     # every history visits a parallel state at least once (n_estimators % n_jobs != 0 is common: 5, 7, 10, 50 trees)
-    if case["n_jobs0"] == 1 and not any(o.get("n_jobs", 1) > 1 for o in hist):
+    nj, par = case["n_jobs0"], False
+    for o in hist:
+        nj = o.get("n_jobs", nj) if "n_jobs" in o else nj
+        par = par or _requested_jobs(nj, o["env"] if "env" in o else case.get("env")) > 1
+    if not par:
         hist.append({"op": "set_params", "n_jobs": 4, "forms": forms()})
     return hist
 
@@ -240,10 +349,12 @@ def _data(case):
 
 
 class _OrderSpy:
-    """wraps forest._accumulate_prediction*: serialises the calls and records which tree each call handles.
-    Purely an observation aid for the model's fold-order input: anything unexpected (functions renamed, called
-    with something that is not one tree, not called at all) is reported by the caller as an L2 mismatch — never
-    as a harness error — and the oracle still runs on the real outputs."""
+    """wraps forest._accumulate_prediction*: serialises the calls and records which tree each call handles and in which thread.
+    Purely an observation aid for the model's environment inputs (fold order, per-worker blocks, where the tasks ran).  When the
+    functions do not exist or are not called at all in this process (accumulation rewritten, tasks run elsewhere) the order is
+    UNOBSERVED: no mismatch by itself - the theorems hold for every order, the model gets the identity order and the outputs are
+    still compared with the exact values on independent per-tree ground truth.  Calls that are observed but are not exactly one
+    per tree contradict the model's contract (`OrderOK`) and are an L2 mismatch - never a harness error."""
 
     NAMES = ("_accumulate_prediction", "_accumulate_prediction_disentangled")
 
@@ -257,6 +368,11 @@ class _OrderSpy:
         self.orig = tuple(getattr(mod, n, None) for n in self.NAMES)
 
     def _wrap(self, f):
+        import functools
+
+        # functools.wraps: the wrapper pickles by reference under the wrapped function's own module / name, so code that sends the
+        # function to worker processes keeps working (there the calls are simply not observed)
+        @functools.wraps(f)
         def g(*args, **kw):
             with self.lock:
                 self.order.append(self.index.get(id(args[0]), -1) if args else -1)
@@ -281,12 +397,14 @@ class _OrderSpy:
         return o
 
     def take_blocks(self):
-        """(order, blocks): blocks = the tree indices each worker thread handled, in its own order, threads by first appearance"""
+        """(order, blocks, in_caller): blocks = the tree indices each worker thread handled, in its own order, threads by first
+        appearance; in_caller = every call ran in the calling thread (None when nothing was seen)"""
         o = self.take()
         by = {}
         for i, t in zip(o, self.last_threads):
             by.setdefault(t, []).append(i)
-        return o, list(by.values())
+        me = threading.get_ident()
+        return o, list(by.values()), (all(t == me for t in self.last_threads) if o else None)
 
 
 def _default_history(case):
@@ -304,24 +422,59 @@ def _build(case):
 
 
 def _call(m, Q, form):
+    """the objects predict returned (not copied, not converted)"""
     if form == "plain":
-        return (np.asarray(m.predict(Q), dtype=float),)
+        return (m.predict(Q),)
     if form == "std":
-        r = m.predict(Q, return_std=True)
-    else:
-        r = m.predict(Q, return_std=True, disentangled_std=True)
-    return tuple(np.asarray(a, dtype=float) for a in r)
+        return tuple(m.predict(Q, return_std=True))
+    return tuple(m.predict(Q, return_std=True, disentangled_std=True))
 
 
-def _apply(m, op, X, y, Q):
-    """Q: the query object of this step"""
+class _Kept:
+    """What a caller keeps: every array a predict call returned, with a snapshot of its content at return time.
+    `changed()` lists the kept arrays whose content is no longer what was returned (and re-arms them)."""
+
+    def __init__(self):
+        self.items = []
+
+    def keep(self, step, form, arrays):
+        for i, a in enumerate(arrays):
+            if isinstance(a, np.ndarray):
+                self.items.append({"step": step, "form": form, "i": i, "arr": a, "snap": a.copy()})
+
+    def changed(self):
+        out = []
+        for it in self.items:
+            a, s = it["arr"], it["snap"]
+            if a.shape != s.shape or not np.array_equal(a, s, equal_nan=a.dtype.kind in "fc"):
+                out.append({"returned_at_step": it["step"], "form": it["form"], "output": it["i"],
+                            "returned": np.asarray(s, dtype=float).ravel()[:6].tolist(), "now": np.asarray(a, dtype=float).ravel()[:6].tolist()})
+                it["snap"] = a.copy()
+        return out
+
+
+def _sibling(case, m, X, y):
+    """another fitted forest (the other class, other seed) - the caller's second surrogate"""
+    from deephyper.skopt.learning import ExtraTreesRegressor, RandomForestRegressor
+
+    cls = ExtraTreesRegressor if case["cls"] == "RF" else RandomForestRegressor
+    return cls(n_estimators=3, random_state=(case["seed"] + 1) % 100000, n_jobs=m.n_jobs, min_samples_split=2).fit(X, y)
+
+
+def _apply(m, op, X, y, Q, case=None, env=None, Qother=None):
+    """Q: the query object of this step; Qother: a batch of the same length and class with other content"""
     k = op["op"]
     if k == "set_params":
         m.set_params(**{p: op[p] for p in ("min_variance", "n_jobs") if p in op})
     elif k == "setattr":
         m.min_variance = op["min_variance"]
     elif k == "predict":
-        _call(m, Q, op["form"])
+        with _ambient(env):
+            _call(m, Q, op["form"])
+    elif k == "other":
+        sib = _sibling(case, m, X, y)
+        with _ambient(env):
+            _call(sib, Qother if Qother is not None else Q, op["form"])
     elif k == "clone_refit":
         from sklearn.base import clone
 
@@ -343,38 +496,55 @@ def _run_history(case, spy):
         return {"rejected": str(e)[:60]}
     hist = case.get("history") or _default_history(case)
     checks = []
+    kept = _Kept()
     for step, op in enumerate(hist):
         qspec = op["q"] if "q" in op else case.get("query")
-        chk = {"step": step, "op": op["op"], "error": None, "q": qspec, "qsig": _qsig(qspec)}
+        env = op["env"] if "env" in op else case.get("env")
+        chk = {"step": step, "op": op["op"], "error": None, "q": qspec, "qsig": _qsig(qspec), "env": env, "esig": _esig(env)}
         checks.append(chk)
         try:
             Qs = _make_query(Q, qspec)      # the object handed to the code under test
             Qg = _make_query(Q, qspec)      # an equal object built separately, for the ground truth
-            m = _apply(m, op, X, y, Qs)
-            chk["n_jobs"] = m.n_jobs if isinstance(m.n_jobs, int) else 1
+            Qo = _make_query(np.roll(Q, 1, axis=0) + 0.3, qspec) if op["op"] == "other" else None
+            m = _apply(m, op, X, y, Qs, case, env, Qo)
+            unstable = [dict(u, modified_by=f"op {op['op']}" + (f"({op.get('form')})" if op.get("form") else "")) for u in kept.changed()]
+            chk["n_jobs"] = m.n_jobs if isinstance(m.n_jobs, int) and not isinstance(m.n_jobs, bool) else None
+            chk["jobs"] = _requested_jobs(chk["n_jobs"], env)
             chk["minvar"] = float(m.min_variance)
             trees = list(m.estimators_)
             n = chk["n"] = len(trees)
             nq = chk["nq"] = len(Qg)
             spy.index = {id(t): i for i, t in enumerate(trees)}
             spy.take()
-            outs, orders, blocks = {}, {}, {}
+            outs, orders, blocks, in_caller = {}, {}, {}, {}
             for form in op.get("forms", FORMS):
-                outs[form] = _call(m, Qs, form)
-                orders[form], blocks[form] = spy.take_blocks()
-            chk["out_dtypes"] = sorted({str(getattr(a, "dtype", type(a).__name__)) for f in FORMS for a in outs[f]})
+                with _ambient(env):
+                    raw = _call(m, Qs, form)
+                orders[form], blocks[form], in_caller[form] = spy.take_blocks()
+                unstable += [dict(u, modified_by=f"predict form {form}") for u in kept.changed()]
+                kept.keep(step, form, raw)
+                # judged on the content at return time (float64 copies); what happens to the returned arrays later is `unstable`
+                outs[form] = tuple(np.array(a_, dtype=float) for a_ in raw)
+            if unstable:
+                chk["unstable"] = unstable[:4]
+            chk["out_dtypes"] = sorted({str(getattr(a_, "dtype", type(a_).__name__)) for f in FORMS for a_ in outs[f]})
             # ground truth, obtained without going through the code under test (the trees cast the query to float32 themselves)
             chk["tm"] = np.array([t.predict(Qg) for t in trees], dtype=float)
             chk["tv"] = np.array([t.tree_.impurity[t.apply(Qg)] for t in trees], dtype=float)
             chk["outs"] = outs
             ok_shapes = (len(outs["plain"]) == 1 and len(outs["std"]) == 2 and len(outs["dis"]) == 3 and
-                         all(a.shape == (nq,) for f in FORMS for a in outs[f]))
+                         all(a_.shape == (nq,) for f in FORMS for a_ in outs[f]))
             if not ok_shapes:
-                chk["error"] = "shape: " + str({f: [a.shape for a in outs[f]] for f in FORMS}) + f" for {nq} query rows"
+                chk["error"] = "shape: " + str({f: [a_.shape for a_ in outs[f]] for f in FORMS}) + f" for {nq} query rows"
             want = list(range(n))
-            chk["order_ok"] = spy.installed and sorted(orders["std"]) == want and sorted(orders["dis"]) == want
+            seen_any = bool(orders["std"] or orders["dis"])
+            chk["order_state"] = ("unobserved" if not (spy.installed and seen_any) else
+                                  "observed" if sorted(orders["std"]) == want and sorted(orders["dis"]) == want else "not-once-per-tree")
+            chk["order_ok"] = chk["order_state"] == "observed"
             chk["order"] = [int(i) for i in orders["std"]] if chk["order_ok"] else want
-            chk["blocks"] = [[int(i) for i in b] for b in blocks["std"]] if chk["order_ok"] else [want]
+            chk["blocks"] = [[int(i) for i in b_] for b_ in blocks["std"]] if chk["order_ok"] else [want]
+            chk["in_caller"] = [in_caller["std"], in_caller["dis"]] if chk["order_ok"] else None
+            chk["nthreads"] = max(len(blocks["std"]), len(blocks["dis"])) if chk["order_ok"] else None
             chk["order_seen"] = {"installed": spy.installed, "std": orders["std"][:60], "dis": orders["dis"][:60]}
         except HarnessError:
             raise
@@ -384,6 +554,9 @@ def _run_history(case, spy):
             chk["error"] = f"{type(e).__name__}: {e}"
             chk["trace"] = traceback.format_exc()[-1200:]
             break
+    late = kept.changed()   # e.g. by a background thread of the code under test: nothing may touch what was returned
+    if late and checks and not checks[-1]["error"]:
+        checks[-1].setdefault("unstable", [dict(u, modified_by="after the last call") for u in late[:4]])
     res = {"checks": checks, "acq": None}
     Q = _make_query(Q, case.get("query"))      # the acquisitions are evaluated on the case's query object
     Qg = _make_query(_data(case)[2], case.get("query"))
@@ -396,6 +569,8 @@ def _run_history(case, spy):
             kappa = 1.96
             mu1, sd = m.predict(Q, return_std=True)
             mu2, al, ep = m.predict(Q, return_std=True, disentangled_std=True)
+            kept.keep("acquisition", "std", (mu1, sd))
+            kept.keep("acquisition", "dis", (mu2, al, ep))
             lcb = _gaussian_acquisition(Q, m, acq_func="LCB", acq_func_kwargs={"kappa": kappa})
             lcbd = _gaussian_acquisition(Q, m, acq_func="LCBd", acq_func_kwargs={"kappa": kappa})
             res["acq"] = {"lcbd_ok": bool(np.array_equal(lcbd, mu2 - kappa * ep)), "lcb_ok": bool(np.array_equal(lcb, mu1 - kappa * sd)),
@@ -444,6 +619,9 @@ def _run_history(case, spy):
                 v_ep = call(_Stub(np.asarray(mu2, dtype=float), np.asarray(ep, dtype=float)), name)
                 res["acq"]["other"][name + ("d" if xi == 0.01 else f"d(xi={xi:g})")] = {"ok": bool(np.allclose(vd, v_ep, rtol=1e-12, atol=0.0, equal_nan=True)),
                                                                                         "d": vd.tolist(), "want": v_ep.tolist()}
+            late = kept.changed()
+            if late:
+                checks[-1].setdefault("unstable", [dict(u, modified_by="the predict calls of the acquisition functions") for u in late[:4]])
         except Exception as e:
             res["acq"] = {"error": f"{type(e).__name__}: {e}"}
     return res
@@ -478,8 +656,11 @@ def _requests(res):
             pts.append({"trees": [[rat(c["tm"][i, j]), rat(c["tv"][i, j])] for i in range(n)],
                         "got": [rat(o["plain"][0][j]), rat(o["std"][0][j]), rat(o["std"][1][j]),
                                 rat(o["dis"][0][j]), rat(o["dis"][1][j]), rat(o["dis"][2][j])]})
+        env = c.get("env") or {}
+        if env.get("backend") not in (None, "threading", "loky", "multiprocessing", "sequential"):
+            raise HarnessError(f"joblib backend not in the model: {env}")
         reqs.append({"op": "forest", "minvar": rat(c["minvar"]), "order": c["order"], "blocks": c["blocks"], "tolv": rat(tolv), "tolm": rat(tolm),
-                     "points": pts})
+                     "env": {"backend": env.get("backend"), "n_jobs": _ctx_jobs(env), "cpus": _cpus()}, "n_jobs": c["n_jobs"], "points": pts})
         idx.append(k)
     return reqs, idx, early
 
@@ -514,24 +695,40 @@ def _evaluate(ck, case, res, reqs, idx, early, reps, acq_rep=None):
     checks = res["checks"]
     for k, rep in zip(idx, reps):
         c = checks[k]
-        if not c["order_ok"]:
-            l2.append({"what": "the accumulation order of the trees could not be observed (the model's fold-order environment): "
-                               "the per-tree accumulate functions were not called once per tree", "step": c["step"], "seen": c["order_seen"],
-                       "n_trees": c["n"], "n_jobs": c["n_jobs"]})
+        if c["order_state"] == "not-once-per-tree":
+            l2.append({"what": "the observed calls of the per-tree accumulate functions are not one call per tree (the model's fold order "
+                               "is a permutation of the trees)", "step": c["step"], "seen": c["order_seen"],
+                       "n_trees": c["n"], "n_jobs": c["n_jobs"], "joblib_context": c["esig"]})
+        # where the tasks ran (Model/Forest.lean `resolve`, C18_env) against what the spy saw: in the calling thread iff one effective
+        # worker, never more worker threads than effective workers; only judged when the accumulation was observed at all
+        menv = rep.get("env")
+        c["model_env"] = menv
+        if menv and c["order_ok"] and c.get("in_caller") is not None:
+            seen_in_caller = all(x is True for x in c["in_caller"])
+            if (not menv["shared"]) or seen_in_caller != bool(menv["in_caller"]) or c["nthreads"] > max(1, menv["n_eff"]):
+                l2.append({"what": "where joblib ran the per-tree tasks differs from the model's backend resolution (resolve / C18_env)",
+                           "step": c["step"], "joblib_context": c["esig"], "n_jobs": c["n_jobs"], "model": menv,
+                           "observed": {"in_calling_thread": c["in_caller"], "worker_threads": c["nthreads"]}})
+        if c.get("unstable"):
+            u = c["unstable"][0]
+            fails.append(("returned-arrays-stable", "an array returned by an earlier predict call was modified by a later call "
+                          f"(returned at step {u['returned_at_step']} by form {u['form']}, modified by {u['modified_by']})", k,
+                          {"step": c["step"], "op": c["op"], "modified": c["unstable"], "n_jobs": c["n_jobs"], "joblib_context": c["esig"],
+                           "query_object": c["qsig"]}))
         first = {}
         if not rep.get("batch_rows", True):
             l2.append({"what": "the vectorised batch model disagrees with the per-row model (C18_batch)", "step": c["step"]})
         for j, p in enumerate(rep["points"]):
-            if not (p["means_agree"] and p["total_law"] and p["order_indep"] and p.get("blocks_indep", True) and p.get("floor_law", True)):
-                l2.append({"what": "model contradicts its own theorems (C18_mean / C18_total / C18_order / C18_blocks / C18_floor)", "point": j, "reply": p,
+            if not (p["means_agree"] and p["total_law"] and p["order_indep"] and p.get("blocks_indep", True) and p.get("floor_law", True) and p.get("env_indep", True)):
+                l2.append({"what": "model contradicts its own theorems (C18_mean / C18_total / C18_order / C18_blocks / C18_floor / C18_env)", "point": j, "reply": p,
                            "blocks": c.get("blocks")})
             for key, clause, what in CLAUSES:
                 ok = all(p[key]) if key == "mean_ok" else p[key]
                 if not ok and clause not in first:
                     o = c["outs"]
                     first[clause] = (clause, what, k, {
-                        "step": c["step"], "op": c["op"], "n_jobs": c["n_jobs"], "min_variance_in_force": c["minvar"], "n_trees": c["n"], "query": j,
-                        "query_object": c["qsig"], "output_dtypes": c.get("out_dtypes"),
+                        "step": c["step"], "op": c["op"], "n_jobs": c["n_jobs"], "joblib_context": c["esig"], "min_variance_in_force": c["minvar"],
+                        "n_trees": c["n"], "query": j, "query_object": c["qsig"], "output_dtypes": c.get("out_dtypes"),
                         "impl": {"predict": o["plain"][0][j], "return_std": [o["std"][0][j], o["std"][1][j]],
                                  "disentangled": [o["dis"][0][j], o["dis"][1][j], o["dis"][2][j]]},
                         "exact": {q: float(_fr(p[q])) for q in ("mean", "var", "al", "ep", "scale")}})
@@ -545,7 +742,7 @@ def _evaluate(ck, case, res, reqs, idx, early, reps, acq_rep=None):
         if c["op"] in ("clone_refit",):
             epoch += 1
         key = (epoch, c["minvar"], c["qsig"])
-        if key in seen and seen[key]["n_jobs"] != c["n_jobs"] and seen[key]["nq"] == c["nq"]:
+        if key in seen and seen[key]["jobs"] != c["jobs"] and seen[key]["nq"] == c["nq"]:
             a, b = seen[key], c
             for j in range(c["nq"]):
                 tol = max(64, 2 * c["n"] + 8) * EPS * c["scale"][j] * 2 * (1 + 1e-9)
@@ -553,7 +750,8 @@ def _evaluate(ck, case, res, reqs, idx, early, reps, acq_rep=None):
                          (a["outs"]["dis"][2][j], b["outs"]["dis"][2][j])]
                 if any(abs(x * x - y * y) > tol for x, y in pairs):
                     fails.append(("n_jobs-independent", "predictions with different n_jobs differ beyond summation order", k,
-                                  {"query": j, "n_jobs": [a["n_jobs"], b["n_jobs"]], "values": pairs}))
+                                  {"query": j, "n_jobs": [a["n_jobs"], b["n_jobs"]], "joblib_context": [a["esig"], b["esig"]],
+                                   "steps": [a["step"], b["step"]], "values": pairs}))
                     break
         seen.setdefault(key, c)
     acq = res.get("acq")
@@ -609,11 +807,30 @@ def _without(q, field):
     return q2 or None
 
 
-def _classify(ck, d, spy, case, res, clause, k):
+def _env_opt(env):
+    """fingerprint text of a joblib context spec"""
+    if not env:
+        return ""
+    return "env(" + ",".join(f"{k}={env[k]}" for k in ("backend", "n_jobs", "api") if k in env) + ")"
+
+
+def _classify(ck, d, spy, case, res, clause, k, hint=None):
     """Shrink a failing case and derive the fingerprint options from the shrunk case:
-    stateless (a fresh forest built with the parameters in force fails alone) or a minimal history; then the query
-    object is reduced towards the plain float64 array and whatever is still needed is named in the fingerprint."""
+    stateless (a fresh forest built with the parameters in force fails alone) or a minimal history; then the joblib context and the
+    query object are reduced towards "no context" / the plain float64 array and whatever is still needed is named in the fingerprint.
+    `hint` = (shrunk case, options) found for another clause failing at the same step: adopted when this clause fails there too."""
     c = res["checks"][k]
+
+    def fails(cs):
+        ck.count("shrink_reruns")
+        _, f, _ = _run_and_evaluate(ck, d, cs, spy)
+        return [x for x in f if x[0] == clause]
+
+    if hint is not None:
+        f = fails(hint[0])
+        if f:
+            return hint[0], hint[1], f[0]
+
     nj = c.get("n_jobs", 1)
     fresh = dict(case)
     fresh["kw"] = dict(case["kw"])
@@ -621,62 +838,90 @@ def _classify(ck, d, spy, case, res, clause, k):
         fresh["kw"]["min_variance"] = c["minvar"]
     fresh["n_jobs0"] = nj
     fresh["query"] = c.get("q")
+    fresh["env"] = c.get("env")
     fresh["history"] = [{"op": "fit", "forms": (case.get("history") or _default_history(case))[c["step"]].get("forms", FORMS)}]
 
-    def fails(cs):
-        _, f, _ = _run_and_evaluate(ck, d, cs, spy)
-        return [x for x in f if x[0] == clause]
+    def specs(cs, field):
+        return [("case", None)] + [("op", i) for i, o in enumerate(cs["history"]) if o.get(field)]
+
+    def get(cs, w, field):
+        return cs.get({"q": "query", "env": "env"}[field]) if w[0] == "case" else cs["history"][w[1]].get(field)
+
+    def put(cs, w, field, v):
+        cs = dict(cs)
+        if w[0] == "case":
+            cs[{"q": "query", "env": "env"}[field]] = v
+        else:
+            h = list(cs["history"])
+            h[w[1]] = dict(h[w[1]], **{field: v})
+            cs["history"] = h
+        return cs
 
     def shrink_query(cs, best):
         """greedy: drop the fields of the query spec (case level and per step) the failure does not need"""
-        def specs(cs):
-            return [("case", None)] + [("op", i) for i, o in enumerate(cs["history"]) if o.get("q")]
-
-        def get(cs, w):
-            return cs.get("query") if w[0] == "case" else cs["history"][w[1]].get("q")
-
-        def put(cs, w, q):
-            cs = dict(cs)
-            if w[0] == "case":
-                cs["query"] = q
-            else:
-                h = list(cs["history"])
-                h[w[1]] = dict(h[w[1]], q=q)
-                cs["history"] = h
-            return cs
-
-        for w in specs(cs):
-            if not get(cs, w):
+        for w in specs(cs, "q"):
+            if not get(cs, w, "q"):
                 continue
-            trial = put(cs, w, None)
+            trial = put(cs, w, "q", None)
             f = fails(trial)
             if f:
                 cs, best = trial, f[0]
                 continue
-            for field in ("rows", "readonly", "layout", "dtype"):
-                q = get(cs, w)
+            for field in ("shift", "rows", "readonly", "layout", "dtype"):
+                q = get(cs, w, "q")
                 if q and field in q and not (field == "dtype" and q[field] == "f64") and not (field == "layout" and q[field] == "C"):
-                    trial = put(cs, w, _without(q, field))
+                    trial = put(cs, w, "q", _without(q, field))
                     f = fails(trial)
                     if f:
                         cs, best = trial, f[0]
         needed = []
-        for w in specs(cs):
-            q = get(cs, w) or {}
-            needed += [f"{k_}={q[k_]}" for k_ in ("dtype", "layout", "readonly", "rows") if k_ in q and not (k_ == "dtype" and q[k_] == "f64")
+        for w in specs(cs, "q"):
+            q = get(cs, w, "q") or {}
+            needed += [f"{k_}={q[k_]}" for k_ in ("dtype", "layout", "readonly", "rows", "shift") if k_ in q and not (k_ == "dtype" and q[k_] == "f64")
                        and not (k_ == "layout" and q[k_] == "C")]
         return cs, best, ("query(" + ",".join(sorted(set(needed))) + ")" if needed else "")
+
+    def shrink_env(cs, best):
+        """greedy: drop the joblib contexts (case level and per step) the failure does not need, then their fields"""
+        for w in specs(cs, "env"):
+            env = get(cs, w, "env")
+            if not env:
+                continue
+            trial = put(cs, w, "env", None)
+            f = fails(trial)
+            if f:
+                cs, best = trial, f[0]
+                continue
+            for field in ("api", "n_jobs"):
+                env = get(cs, w, "env")
+                if env and field in env and (field != "api" or env.get("backend")) and len(env) > 1:
+                    trial = put(cs, w, "env", _without(env, field))
+                    f = fails(trial)
+                    if f:
+                        cs, best = trial, f[0]
+        needed = sorted({_env_opt(get(cs, w, "env")) for w in specs(cs, "env")} - {""})
+        return cs, best, ",".join(needed)
 
     f = fails(fresh)
     if f:
         best = f[0]
-        if nj > 1:  # does the failure need the parallel accumulation at all?
+        env = fresh.get("env") or {}
+        if nj is None and _requested_jobs(None, env) > 1:   # the same parallelism asked for through the forest's own n_jobs
+            k_ = min(_requested_jobs(None, env), 4)
+            trial = dict(fresh, n_jobs0=k_, env=_without(_without(env, "n_jobs"), "api"))
+            f1 = fails(trial)
+            if f1:
+                fresh, best, nj = trial, f1[0], k_
+        fresh, best, eopt = shrink_env(fresh, best)
+        if _requested_jobs(nj, fresh.get("env")) > 1:  # does the failure need the parallel accumulation at all?
             trial = dict(fresh, n_jobs0=1)
             f1 = fails(trial)
             if f1:
                 fresh, best, nj = trial, f1[0], 1
+                fresh, best, eopt = shrink_env(fresh, best)
         fresh, best, qopt = shrink_query(fresh, best)
-        return fresh, ",".join(x for x in ("n_jobs>1" if nj > 1 else "", qopt) if x), best
+        par = _requested_jobs(nj, fresh.get("env")) > 1
+        return fresh, ",".join(x for x in ("n_jobs>1" if par else "", eopt, qopt) if x), best
     hist = list(case.get("history") or _default_history(case))
     cur = dict(case)
     cur["history"] = hist
@@ -697,14 +942,16 @@ def _classify(ck, d, spy, case, res, clause, k):
                 f = fails(trial)
                 if f:
                     cur, best = trial, f[0]
-    qopt = ""
+    qopt = eopt = ""
     if best is None:
         f = fails(cur)
         best = f[0] if f else None
     if best is not None:
+        cur, best, eopt = shrink_env(cur, best)
         cur, best, qopt = shrink_query(cur, best)
-    kinds = [o["op"] + ("(min_variance)" if "min_variance" in o else "") + ("(n_jobs)" if o.get("n_jobs", 1) > 1 else "") for o in cur["history"][1:]]
-    return cur, "history=" + ">".join(kinds) + ("," + qopt if qopt else ""), best
+    kinds = [o["op"] + ("(min_variance)" if "min_variance" in o else "") + ("(n_jobs)" if (o.get("n_jobs") or 1) > 1 else "") +
+             (f"({o['form']})" if o["op"] in ("predict", "other") and o.get("form") else "") for o in cur["history"][1:]]
+    return cur, ",".join(x for x in ("history=" + ">".join(kinds), eopt, qopt) if x), best
 
 
 def _load_corpus():
@@ -730,8 +977,19 @@ def _stats(ck, case, res):
         ck.count("step:" + c["op"])
         if c["error"]:
             continue
-        nj = c["n_jobs"]
-        ck.count(f"check:n_jobs={nj}")
+        nj = c["jobs"]
+        ck.count(f"check:n_jobs={c['n_jobs']}")
+        env = c.get("env") or {}
+        par = "jobs>1" if nj > 1 else "jobs=1"
+        ck.count("env:" + ("none" if not env else f"backend={env.get('backend')}") + "," + par)
+        if env:
+            ck.count("env_api:" + env.get("api", "parallel_config") + (",n_jobs" if "n_jobs" in env else ""))
+            if c["n_jobs"] is None and "n_jobs" in env:
+                ck.count("env:n_jobs-from-context-only")
+        if c.get("model_env"):
+            me = c["model_env"]
+            ck.count(f"model_resolve:{me['backend']},{'in-caller' if me['in_caller'] else 'pool'}")
+        ck.count("order:" + c.get("order_state", "?"))
         if nj > 1:
             ck.count("check:n_jobs>1," + ("n_trees%n_jobs!=0" if c["n"] % nj else "n_trees%n_jobs==0"))
             ck.count("order_parallel:" + ("unobserved" if not c["order_ok"] else "identity" if c["order"] == list(range(c["n"])) else "permuted"))
@@ -740,6 +998,8 @@ def _stats(ck, case, res):
         q = c.get("q") or {}
         ck.count("query_dtype:" + q.get("dtype", "f64"))
         ck.count("query_layout:" + q.get("layout", "C") + (",readonly" if q.get("readonly") else ""))
+        if q.get("shift"):
+            ck.count("query_content:shifted")
         ck.count("query_rows:" + ("1" if c["nq"] == 1 else "2" if c["nq"] == 2 else "3+"))
         for dt in c.get("out_dtypes", []):
             ck.count("output_dtype:" + dt)
@@ -780,6 +1040,7 @@ def _acq_classify(ck, d, spy, case, clause):
 def _report(ck, d, spy, case, res, fails, budget):
     """one ck.fail per failing clause, the case shrunk and the fingerprint options derived from the shrunk case"""
     done = set()
+    shrunk_at = {}   # failing step -> (shrunk case, options) of the first clause shrunk there
     for clause, what, k, detail in fails:
         if clause in done:
             continue
@@ -802,9 +1063,10 @@ def _report(ck, d, spy, case, res, fails, budget):
             shrunk, qopt = _acq_classify(ck, d, spy, case, clause)
             ck.fail(f"C18|raises|_gaussian_acquisition|{qopt.lstrip(';')}", what, shrunk, detail)
             continue
-        shrunk, opts, f2 = _classify(ck, d, spy, case, res, clause, k)
+        shrunk, opts, f2 = _classify(ck, d, spy, case, res, clause, k, shrunk_at.get(k))
         if f2 is not None:
             what, detail = f2[1], f2[3]
+            shrunk_at.setdefault(k, (shrunk, opts))
         ck.fail(f"C18|{clause}|{_cls_name(case)}.predict|{opts}", what, shrunk, detail)
 
 
@@ -834,13 +1096,26 @@ def run(ck):
                "sklearn.base.clone + refit, pickle round trip) and after the fit and after every op all three predict forms are judged with the parameters "
                "in force at that moment on 3-10 query points (training points, fresh points, outside the hull); the query OBJECT varies per case and per step: "
                "dtype {float64, float32, float16, longdouble, int64/32/8, uint8, bool, object} x layout {C, Fortran, column-strided, row-strided, reversed "
-               "view, nested list, list of tuples, DataFrame} x read-only x batch {all rows, all but the first, two rows, one row}, ground truth taken with "
-               "an equal object; distinct by generator parameters; "
+               "view, nested list, list of tuples, DataFrame} x read-only x batch {all rows, all but the first, two rows, one row} x content {the pool, "
+               "another batch of the same length}, ground truth taken with an equal object; the ENVIRONMENT of the call varies per case and per step: "
+               "joblib context {none, parallel_config / parallel_backend with backend threading, loky, multiprocessing, sequential or none} x context "
+               "n_jobs {unset, 2, 4} x forest n_jobs {None, 1, 2, 3, 4}; further steps: a predict call whose result is dropped, a predict call of a "
+               "SECOND fitted forest (other class) on another batch of the same length - every array any call returned is kept and must keep its "
+               "content; distinct by generator parameters; "
                "non-trivial = at least two trees with different predictions or a non-zero leaf variance")
     ck.assumptions = [
         "scikit-learn's tree fitting is not modelled: the per-tree (prediction, leaf impurity) pairs are extracted from estimators_ independently of the code under test and are inputs of the model",
         "float tolerance: variances within max(64, 2n+8)*eps*(aleatoric + E[m_t^2]) absolute (first-order rounding bound of the accumulation is (1.5n+2)*eps of that scale), means within 4*n*eps*mean|m_t|",
-        "the accumulation order of the n_jobs threads is observed by serialising _accumulate_prediction* under an outer lock; the theorems hold for every order; an unobservable order is an L2 mismatch and the oracle still runs",
+        "the accumulation order of the n_jobs threads is observed by serialising _accumulate_prediction* under an outer lock; the theorems hold for every order; "
+        "when the functions are absent / never called in this process the order is UNOBSERVED (identity order sent to the model, no mismatch by itself, the outputs are "
+        "still compared with the exact values on independent per-tree ground truth); observed calls that are not one per tree are an L2 mismatch",
+        "joblib's backend resolution is modelled (Model/Forest.lean `resolve`: call-level n_jobs > context n_jobs > 1; context backend kept unless require='sharedmem' and the "
+        "backend has no shared memory -> threading with the context's n_jobs dropped; one effective worker -> in the calling thread) at nesting level 0 (negative n_jobs counted from joblib.cpu_count(), the legacy parallel_backend defaulting to -1), "
+        "and compared on every observed step with where the accumulate calls actually ran (calling thread or not, number of worker threads <= effective workers); "
+        "a context `prefer=` is outside the dimension (joblib rejects prefer='processes' + require='sharedmem' for scikit-learn's own forests too)",
+        "worker processes of a process backend (only ever started by a changed tree: the unchanged code requires shared memory) import deephyper from the tree under test (PYTHONPATH is set by the harness)",
+        "returned-arrays-stable: every ndarray returned by a predict call is kept with a snapshot taken at return time and compared bit for bit after every later call of the history "
+        "(same forest, a second forest, the acquisition functions); the other clauses are judged on the content at return time",
         "min_variance and impurity are finite doubles",
         "dtype contract: tree.predict / tree_.impurity are float64 and the forest accumulates and returns float64 whatever the dtype, layout or container of the query "
         "(scikit-learn's trees cast the query to float32 themselves; the ground truth is taken with an equal query object), so the float64 tolerances above apply to every query class",
@@ -850,12 +1125,73 @@ def run(ck):
     cases = _load_corpus()
     ncase = ck.pick(70, 900)
     cases += [_gen_case(ck.rng, ck.thorough) for _ in range(ncase)]
+    if ck.thorough:
+        cases += _grid_cases(ck.rng, [11])
     budget = {}
     with ck.driver() as d, _OrderSpy(forest) as spy:
         if not spy.installed:
-            ck.mismatch({"spy": "forest._accumulate_prediction*"}, "the per-tree accumulate functions no longer exist: accumulation order cannot be observed")
+            # not a mismatch by itself: the order is an environment input of the model and the theorems hold for every order
+            ck.count("order_spy:accumulate-functions-absent")
+            ck.notes.append("forest._accumulate_prediction* do not exist: the accumulation order is unobserved (identity order sent to the model)")
         for case in cases:
             _handle(ck, d, spy, case, budget)
+
+
+def _grid_cases(rng, seeds):
+    """the environment dimension walked systematically: every joblib context x API x (n_jobs of the forest, n_jobs of the context) in
+    {(4, -), (-, 4), (2, -), (1, 2), (-, -)}, all three predict forms after every step, on fitted forests of both classes - one short
+    history per context, so that a failing one shrinks fast; plus the kept-array histories with a second forest"""
+    out = []
+    for cls in ("RF", "ET"):
+        for seed in seeds:
+            kw = {"n_estimators": 7, "bootstrap": cls == "RF", "min_samples_split": 2, "min_variance": 1e-3, "max_features": 1.0,
+                  "min_samples_leaf": 1, "max_depth": None}
+            if cls == "RF":
+                kw["splitter"] = "best"
+            base = {"cls": cls, "n": 40, "d": 3, "kind": "gauss", "kw": kw, "seed": seed, "nq": 6, "n_jobs0": 1, "query": None, "env": None}
+            for backend in ("loky", "multiprocessing", "threading", "sequential", None):
+                for api in ("parallel_config", "parallel_backend"):
+                    if api == "parallel_backend" and backend is None:
+                        continue
+                    hist = [{"op": "fit", "forms": FORMS[:]}]
+                    for nj, cj in ((4, None), (None, 4), (2, None), (1, 2), (None, None)):
+                        if backend is None and cj is None:
+                            continue
+                        if api == "parallel_backend" and backend in PROCESS_BACKENDS and cj is None:
+                            cj = 2
+                        env = {k: v for k, v in (("backend", backend), ("n_jobs", cj), ("api", api if api != "parallel_config" else None)) if v is not None}
+                        forms = FORMS[:]
+                        rng.shuffle(forms)
+                        hist.append({"op": "set_params", "n_jobs": nj, "env": env, "forms": forms})
+                    out.append(dict(base, history=hist))
+            out.append(dict(base, kw=dict(kw, min_variance=0.0), seed=seed + 1,
+                            history=[{"op": "fit", "forms": FORMS[:]}] +
+                                    [{"op": o, "form": f, "forms": FORMS[:], "q": q} for o in ("predict", "other") for f in ("std", "dis", "plain")
+                                     for q in (None, {"shift": True}, {"rows": "one"}, {"rows": "one", "shift": True})]))
+    return out
+
+
+def search(ck):
+    """Deeper failing-input search, called by main.py when L1 / L2 broke and `run` found no failing input: the property itself is
+    evaluated on (1) the environment grid (every joblib context x n_jobs x API on fitted forests of both classes), (2) histories in
+    which the caller keeps returned arrays across further queries of the same / another forest, (3) a larger random sample of the
+    generator with the joblib context switched on in most cases.  Same oracle, same shrinking, same fingerprints as `run`."""
+    import deephyper.skopt.learning.forest as forest
+
+    cases = _grid_cases(ck.rng, [11] if not ck.thorough else [11, 13])
+    for _ in range(ck.pick(60, 400)):
+        case = _gen_case(ck.rng, ck.thorough)
+        if case.get("env") is None and ck.rng.random() < 0.8:
+            case["env"] = _gen_env(ck.rng, 0.0)
+        cases.append(case)
+    budget = {}
+    ck.count("search:invoked")
+    with ck.driver() as d, _OrderSpy(forest) as spy:
+        for case in cases:
+            ck.count("search:cases")
+            _handle(ck, d, spy, case, budget)
+            if len(ck.failures) >= 6:   # enough witnesses
+                break
 
 
 def replay(ck, case):
@@ -870,6 +1206,7 @@ def replay(ck, case):
         for det in l2[:2]:
             ck.mismatch(case, det)
         _report(ck, d, spy, case, res, fails, None)
-    print("replay:", {"steps": [{"step": c["step"], "op": c["op"], "n_jobs": c.get("n_jobs"), "min_variance": c.get("minvar"), "query": c.get("qsig"), "error": c["error"],
+    print("replay:", {"steps": [{"step": c["step"], "op": c["op"], "n_jobs": c.get("n_jobs"), "joblib_context": c.get("esig"), "min_variance": c.get("minvar"),
+                                 "query": c.get("qsig"), "error": c["error"], "order": c.get("order_state"),
                                  "std[0]": None if c["error"] else [float(a[0]) for f in FORMS for a in c["outs"][f]]} for c in res["checks"]],
                       "failures": [f["fingerprint"] for f in ck.failures]})
